@@ -34,6 +34,12 @@ def body(chk: check.Check):
     runs.append((pool2, 2, (3, 4) if quick else (2, 3), salt))
     if not quick:
         runs.append((pool2, 3, (6, 8, 12), salt))
+    # formulas CONTAINING the Monte-Carlo operator (log(MonteCarlo(f(beta, draws))) and the like): the derivative of
+    # a mean over the draws is the mean of the derivatives, whatever is built above the operator
+    pool_mc = exprenv.pool_mc()
+    runs.append((pool_mc, 2, (2, 2) if quick else (1, 1), salt))
+    if not quick:
+        runs.append((pool_mc, 3, (4, 6, 8), salt))
     chk.rule = ('differentiable DAGs emitted by TLC from ExprLang with their jets (value, gradient, Hessian as terms); '
                 'distinct = distinct canonical formulas with at least one free parameter; each is evaluated at 2 points x 3 rows '
                 'through every derivative entry point')
